@@ -151,6 +151,12 @@ func (x *Exec) stmt(st *State, s ast.Stmt, label string) Flow {
 		if x.isDroppableDefer(s) {
 			return Flow{next: st}
 		}
+		if flag, ok := x.deferFlag[s]; ok {
+			// defer func() { ... }(): the body runs when the function returns, on
+			// the paths that executed this statement (ghost flag)
+			st.vars[flag] = Value{T: tTrue, Ty: types.Typ[types.Bool]}
+			return Flow{next: st}
+		}
 		x.unsup(s.Pos(), "defer")
 	case *ast.GoStmt:
 		x.unsup(s.Pos(), "go statement")
@@ -328,7 +334,80 @@ func (x *Exec) doReturn(st *State, s *ast.ReturnStmt) {
 			n++
 		}
 	}
-	x.rets = append(x.rets, st)
+	x.rets = append(x.rets, x.runDefers(st))
+}
+
+// runDefers executes the registered deferred closures (reverse source order)
+// on the paths whose ghost flag is set, after the results have been computed.
+func (x *Exec) runDefers(st *State) *State {
+	for i := len(x.deferSites) - 1; i >= 0 && st != nil; i-- {
+		d := x.deferSites[i]
+		flag := st.vars[x.deferFlag[d]].T
+		lit := d.Call.Fun.(*ast.FuncLit)
+		switch flag.K {
+		case 2:
+			continue
+		case 1:
+			f := x.block(st, lit.Body.List)
+			st = f.next
+		default:
+			sT := st.clone()
+			sT.assume(flag)
+			sF := st.clone()
+			sF.assume(tNot(flag))
+			f := x.block(sT, lit.Body.List)
+			st = x.vc.mergeStates([]*State{f.next, sF})
+		}
+	}
+	return st
+}
+
+// collectDefers registers the supported defer statements of the function
+// (parameterless closure literal, no return inside, not inside a loop) and
+// initialises their ghost flags to false.
+func (x *Exec) collectDefers(st *State) {
+	x.deferFlag = map[*ast.DeferStmt]types.Object{}
+	var walk func(n ast.Node, inLoop bool)
+	walk = func(n ast.Node, inLoop bool) {
+		ast.Inspect(n, func(m ast.Node) bool {
+			switch t := m.(type) {
+			case *ast.FuncLit:
+				return false
+			case *ast.ForStmt:
+				if t != n {
+					walk(t.Body, true)
+					return false
+				}
+			case *ast.RangeStmt:
+				if t != n {
+					walk(t.Body, true)
+					return false
+				}
+			case *ast.DeferStmt:
+				lit, ok := t.Call.Fun.(*ast.FuncLit)
+				if !ok || len(t.Call.Args) != 0 || inLoop || x.isDroppableDefer(t) {
+					return false
+				}
+				hasReturn := false
+				ast.Inspect(lit.Body, func(k ast.Node) bool {
+					if _, isRet := k.(*ast.ReturnStmt); isRet {
+						hasReturn = true
+					}
+					return !hasReturn
+				})
+				if hasReturn {
+					return false
+				}
+				flag := types.NewVar(t.Pos(), x.pkg.Types, fmt.Sprintf("deferred!%d", len(x.deferSites)), types.Typ[types.Bool])
+				x.deferFlag[t] = flag
+				x.deferSites = append(x.deferSites, t)
+				st.vars[flag] = Value{T: tFalse, Ty: types.Typ[types.Bool]}
+				return false
+			}
+			return true
+		})
+	}
+	walk(x.fd.Body, false)
 }
 
 // returnOrdinal: position of a return statement among the return statements
